@@ -20,44 +20,55 @@ while args:
     elif a == "--tests": tests = True
     elif a == "--record": record = True
     else: names.append(a)
-ok = True
-for meta_path in sorted(glob.glob(f"{V}/selftest/*.json")):
-    name = os.path.basename(meta_path)[:-5]
-    meta = json.load(open(meta_path))
-    if prop and meta["property"] != prop: continue
-    if names and name not in names: continue
-    tmp = tempfile.mkdtemp(prefix="selftest-")
-    try:
-        repo = os.path.join(tmp, "repo")
-        subprocess.run(["rsync", "-a", "--exclude", ".git", "/repo/", repo], check=True)
-        r = subprocess.run(["patch", "-p1", "-s", "-d", repo, "-i", f"{V}/selftest/{name}.patch"], capture_output=True, text=True)
-        if r.returncode != 0:
-            print(f"SELFTEST {name}: patch does not apply: {r.stdout}{r.stderr}"); ok = False; continue
-        e2 = dict(env, GOCACHE=os.path.join(tmp, "gocache"))
-        r = subprocess.run(["go", "build", "./..."], cwd=repo, env=e2, capture_output=True, text=True)
-        if r.returncode != 0:
-            print(f"SELFTEST {name}: patched tree does not compile\n{r.stderr}"); ok = False; continue
-        if tests:
-            r = subprocess.run(["go", "test", "-vet=off", "-count=1", "./..."], cwd=repo, env=e2, capture_output=True, text=True)
-            fails = [l for l in r.stdout.splitlines() if l.startswith("--- FAIL")]
-            print(f"  {name}: test suite on patched copy: {len(fails)} failing top-level tests")
-        r = subprocess.run([f"{V}/bin/goverif", "check", "--prop", meta["property"], "--repo", repo, "--out", tmp], capture_output=True, text=True, env=dict(os.environ))
-        failed = set(re.findall(r"failed obligation: (\S+)", r.stdout))
-        want = set(meta.get("must_fail", []))
-        if record and not want and failed and meta.get("kind", "must-fail") == "must-fail":
-            meta["must_fail"] = sorted(failed)[:4]
-            json.dump(meta, open(meta_path, "w"), indent=1)
-            want = set(meta["must_fail"])
-        if meta.get("kind", "must-fail") == "must-pass":
-            good = r.returncode == 0
-            print(f"SELFTEST {name} [{meta['property']} must-pass]: {'ok' if good else 'FAILED: ' + ', '.join(sorted(failed))}")
-        else:
-            good = r.returncode == 1 and want <= failed
-            extra = failed - want
-            print(f"SELFTEST {name} [{meta['property']} must-fail]: {'ok' if good else 'FAILED'} flipped={sorted(failed & want)} missing={sorted(want - failed)} extra={sorted(extra)}")
-            if r.returncode not in (0, 1):
-                print(r.stdout[-2000:], r.stderr[-2000:])
-        ok = ok and good
-    finally:
-        shutil.rmtree(tmp, ignore_errors=True)
-sys.exit(0 if ok else 1)
+from multiprocessing.pool import ThreadPool
+import io
+def one(meta_path):
+    ok = True
+    out = io.StringIO()
+    def print(*a, **k):
+        import builtins; builtins.print(*a, file=out, **k)
+    for _ in [0]:
+        name = os.path.basename(meta_path)[:-5]
+        meta = json.load(open(meta_path))
+        if prop and meta["property"] != prop: return True, ""
+        if names and name not in names: return True, ""
+        tmp = tempfile.mkdtemp(prefix="selftest-")
+        try:
+            repo = os.path.join(tmp, "repo")
+            subprocess.run(["rsync", "-a", "--exclude", ".git", "/repo/", repo], check=True)
+            r = subprocess.run(["patch", "-p1", "-s", "-d", repo, "-i", f"{V}/selftest/{name}.patch"], capture_output=True, text=True)
+            if r.returncode != 0:
+                print(f"SELFTEST {name}: patch does not apply: {r.stdout}{r.stderr}"); ok = False; continue
+            e2 = dict(env, GOCACHE=os.path.join(tmp, "gocache"))
+            r = subprocess.run(["go", "build", "./..."], cwd=repo, env=e2, capture_output=True, text=True)
+            if r.returncode != 0:
+                print(f"SELFTEST {name}: patched tree does not compile\n{r.stderr}"); ok = False; continue
+            if tests:
+                r = subprocess.run(["go", "test", "-vet=off", "-count=1", "./..."], cwd=repo, env=e2, capture_output=True, text=True)
+                fails = [l for l in r.stdout.splitlines() if l.startswith("--- FAIL")]
+                print(f"  {name}: test suite on patched copy: {len(fails)} failing top-level tests")
+            r = subprocess.run([f"{V}/bin/goverif", "check", "--prop", meta["property"], "--repo", repo, "--out", tmp], capture_output=True, text=True, env=dict(os.environ))
+            failed = set(re.findall(r"failed obligation: (\S+)", r.stdout))
+            want = set(meta.get("must_fail", []))
+            if record and not want and failed and meta.get("kind", "must-fail") == "must-fail":
+                meta["must_fail"] = sorted(failed)[:4]
+                json.dump(meta, open(meta_path, "w"), indent=1)
+                want = set(meta["must_fail"])
+            if meta.get("kind", "must-fail") == "must-pass":
+                good = r.returncode == 0
+                print(f"SELFTEST {name} [{meta['property']} must-pass]: {'ok' if good else 'FAILED: ' + ', '.join(sorted(failed))}")
+            else:
+                good = r.returncode == 1 and want <= failed
+                extra = failed - want
+                print(f"SELFTEST {name} [{meta['property']} must-fail]: {'ok' if good else 'FAILED'} flipped={sorted(failed & want)} missing={sorted(want - failed)} extra={sorted(extra)}")
+                if r.returncode not in (0, 1):
+                    print(r.stdout[-2000:], r.stderr[-2000:])
+            ok = ok and good
+        finally:
+            shutil.rmtree(tmp, ignore_errors=True)
+    return ok, out.getvalue()
+
+res = ThreadPool(6).map(one, sorted(glob.glob(f"{V}/selftest/*.json")))
+for okk, txt in res:
+    sys.stdout.write(txt)
+sys.exit(0 if all(r[0] for r in res) else 1)
